@@ -444,6 +444,7 @@ type SGLongB int64
 type SGLongC int64
 type SGLongD int64
 type SGLongU int64 // never registered
+type SGLongNL int64 // registered with a union whose null branch is last
 type SGStrA string
 type SGStrB string
 type SGSliceA []int32
